@@ -2394,11 +2394,290 @@ def _oracle_general(s, fails):
                     break
 
 
+# ---------------------------------------------------------------------------------------
+# SolveExp1 on first-order systems y' = A y + f (model-free: scipy expm of the augmented hold matrix)
+
+
+def _exp1_reference(A, h, F, d0, order):
+    import scipy.linalg as sla
+
+    n, nt = F.shape
+    big = np.zeros((3 * n, 3 * n))
+    big[:n, :n] = A
+    big[:n, n:2 * n] = np.eye(n)
+    big[n:2 * n, 2 * n:] = np.eye(n)
+    X = sla.expm(big * h)
+    y = np.zeros(n) if d0 is None else np.array(d0, float)
+    d = np.zeros((n, nt))
+    for j in range(nt):
+        d[:, j] = y
+        if j + 1 < nt:
+            g = (F[:, j + 1] - F[:, j]) / h if order == 1 else np.zeros(n)
+            y = (X @ np.concatenate([y, F[:, j], g]))[:n]
+    return d, F + A @ d
+
+
+def _oracle_exp1(s, fails):
+    ode = _ode()
+    A = np.array(s["A"], float)
+    F = np.array(s["F"], float).reshape(s["n"], -1)
+    n, nt = F.shape
+    h, o = s["h"], s["order"]
+    d0 = _arr(s["d0"])
+    rd, rv = _exp1_reference(A, h, F, d0, o)
+    sd = np.abs(rd).max() + 1e-300
+    sv = np.abs(rv).max() + np.abs(A).max() * n * sd + 1e-300
+    inp = dict(s)
+
+    def run(name, force, dd0, tol):
+        try:
+            with warnings.catch_warnings():
+                warnings.simplefilter("ignore")
+                so = ode.SolveExp1(A, h, order=o).tsolve(force, dd0)
+        except Exception as e:  # noqa: BLE001
+            fails.append({"family": "SolveExp1-raises-" + name, "what": "SolveExp1 refuses a valid first-order system",
+                          "input": inp, "observed": repr(e)[:120], "required": "a solution"})
+            return None
+        if dd0 is not None and _rel(np.asarray(so.d, float)[:, 0], dd0, sd) > 1e-12:
+            fails.append({"family": "SolveExp1-initial-state-" + name, "what": "d[:, 0] differs from d0", "input": inp,
+                          "observed": np.asarray(so.d, float)[:, 0].tolist(), "required": s["d0"]})
+            return None
+        for nm, x, y, sc in (("d", so.d, rd, sd), ("v", so.v, rv, sv)):
+            e = _note("exp1-" + name, _rel(np.asarray(x, float), y, sc))
+            if not e <= tol:
+                fails.append({"family": "SolveExp1-%s-order%d-vs-expm-reference" % (name, o),
+                              "what": "SolveExp1 (%s) differs from the exact hold solution of y' = A y + f in %s" % (name, nm),
+                              "input": inp, "observed": e, "required": "<= %g" % tol})
+                return None
+        return so
+
+    base = run("float64", F, d0, 1e-9)
+    if s["dtype"] != "float64":
+        # the same whole-numbered force samples handed over as an integer / single-precision array
+        run("force-dtype-" + s["dtype"], F.astype(s["dtype"]), d0, 1e-9)
+    if base is not None and nt >= 2:
+        G = np.empty((n, 2 * nt - 1))
+        G[:, ::2] = F
+        G[:, 1::2] = (F[:, :-1] + F[:, 1:]) / 2 if o == 1 else F[:, :-1]
+        try:
+            with warnings.catch_warnings():
+                warnings.simplefilter("ignore")
+                fine = ode.SolveExp1(A, h / 2, order=o).tsolve(G, d0)
+            e = _note("exp1-subdivision", _rel(np.asarray(fine.d)[:, ::2], np.asarray(base.d), sd))
+            if not e <= 1e-9:
+                fails.append({"family": "subdivision-SolveExp1-direct", "what": "halving every step changes d at the original samples",
+                              "input": inp, "observed": e, "required": "<= 1e-9"})
+        except Exception as e:  # noqa: BLE001
+            fails.append({"family": "SolveExp1-raises-subdivided", "what": "SolveExp1 refuses the subdivided problem",
+                          "input": inp, "observed": repr(e)[:120], "required": "a solution"})
+
+
+# ---------------------------------------------------------------------------------------
+# boundary cases of the documented cut-offs: inputs at constant * (1 -+ 1e-3) and inside the decade above it.
+# Reference for one mode: the exact hold solution evaluated with 60 decimal digits (Taylor series of the augmented
+# matrix with scaling and squaring in `decimal`; independent of pyYeti and of the double-precision formulas).
+
+
+def _hp_1dof(m, b, k, h, F, d0, v0, order):
+    from decimal import Decimal, getcontext
+
+    getcontext().prec = 60
+    D = lambda x: Decimal(float(x))  # noqa: E731
+    m, b, k, hh = D(m), D(b), D(k), D(h)
+    Z = Decimal(0)
+    A = [[-b / m * hh, -k / m * hh, hh / m, Z], [hh, Z, Z, Z], [Z, Z, Z, hh], [Z, Z, Z, Z]]
+
+    def mul(X, Y):
+        return [[sum(X[i][c] * Y[c][j] for c in range(4)) for j in range(4)] for i in range(4)]
+
+    nrm = max(sum(abs(x) for x in row) for row in A)
+    sq = 0
+    while nrm > Decimal("0.5"):
+        nrm /= 2
+        sq += 1
+    A = [[x / (2 ** sq) for x in row] for row in A]
+    E = [[Decimal(int(i == j)) for j in range(4)] for i in range(4)]
+    T = [row[:] for row in E]
+    for kk in range(1, 45):
+        T = [[x / kk for x in row] for row in mul(T, A)]
+        E = [[E[i][j] + T[i][j] for j in range(4)] for i in range(4)]
+    for _ in range(sq):
+        E = mul(E, E)
+    z = [D(v0), D(d0)]
+    d, v = [z[1]], [z[0]]
+    for j in range(len(F) - 1):
+        g = (D(F[j + 1]) - D(F[j])) / hh if order == 1 else Z
+        x = [z[0], z[1], D(F[j]), g]
+        z = [sum(E[i][c] * x[c] for c in range(4)) for i in range(2)]
+        d.append(z[1])
+        v.append(z[0])
+    return np.array([float(x) for x in d]), np.array([float(x) for x in v])
+
+
+def _boundary_specs():
+    out = []
+    F8 = [[float(x) for x in np.cos(np.arange(8) * 0.7) * 3 + 1]]
+    # |w2/wo2| = 1e-8: inside the band the critical formulas are used (switch error of the order of the cut-off),
+    # outside it the result is exact to round-off
+    for h, wh, m in ((0.01, 1.0, 1.3), (0.1, 0.3, 0.7)):
+        k = m * (wh / h) ** 2
+        for sgn in (1.0, -1.0):
+            for f in (1 - 1e-3, 1 + 1e-3, 3.0, 9.0):
+                rat = sgn * 1e-8 * f
+                out.append({"kind": "boundary", "cut": "crit", "factor": f, "side": "under" if sgn > 0 else "over",
+                            "m": m, "b": 2 * m * math.sqrt((k / m) * (1 - rat)), "k": k, "h": h, "rb": [], "F": F8,
+                            "order": 1 if sgn > 0 else 0, "tol_d": 1e-8 if f < 1 else 1e-10, "tol_v": 1e-8 if f < 1 else 1e-10})
+    # damped rigid-body modes: |C| = 10 (1e-10/h)^(1/3) (displacement formulas) and |C| = 1e-5/sqrt(h) (velocity formulas)
+    for h in (0.01, 0.1):
+        cut = 10 * (1e-10 / h) ** (1 / 3)
+        for f in (0.3, 1 - 1e-3, 1 + 1e-3, 3.0, 9.0):
+            out.append({"kind": "boundary", "cut": "rb-disp", "factor": f, "m": 1.0, "b": 2 * cut * f, "k": 0.0, "h": h,
+                        "rb": [0], "F": F8, "order": 1, "tol_d": 2e-3 if f < 1 else 1e-7, "tol_v": 2e-6})
+    for h in (0.1, 1.0):
+        cut = 1e-5 / math.sqrt(h)
+        for f in (0.1, 0.3, 1 - 1e-3, 1 + 1e-3, 3.0, 9.0):
+            out.append({"kind": "boundary", "cut": "rb-velo", "factor": f, "m": 1.0, "b": 2 * cut * f, "k": 0.0, "h": h,
+                        "rb": [0], "F": F8, "order": 0 if h < 1 else 1, "tol_d": 2e-3, "tol_v": 1e-4 if f < 1 else 2e-6})
+    # auto-detection of rigid-body modes: |k| < 0.005
+    for f in (1 - 1e-3, 1 + 1e-3):
+        out.append({"kind": "boundary", "cut": "rb-auto", "factor": f})
+    # |lam| < 5e-5 of the complex-eigenvalue path
+    for f in (1 - 1e-3, 1 + 1e-3, 3.0, 9.0):
+        out.append({"kind": "boundary", "cut": "cplx-small", "factor": f})
+    return out
+
+
+def _oracle_boundary(s, fails):
+    ode = _ode()
+    cut, f = s["cut"], s["factor"]
+    inp = dict(s)
+    side = "below" if f < 1 else "above"
+
+    def fail(what, observed, required, fam=None):
+        fails.append({"family": fam or "boundary-%s-%s-the-documented-cut-off" % (cut, side), "what": what, "input": inp,
+                      "observed": observed, "required": required})
+
+    if cut in ("crit", "rb-disp", "rb-velo"):
+        F = np.array(s["F"], float)
+        d0, v0 = 0.3, -0.2
+        rd, rv = _hp_1dof(s["m"], s["b"], s["k"], s["h"], F[0], d0, v0, s["order"])
+        sd = np.abs(rd).max() + s["h"] * np.abs(rv).max()
+        sv = np.abs(rv).max() + sd / s["h"]
+        for cls in ("SolveUnc", "SolveExp2"):
+            try:
+                with warnings.catch_warnings():
+                    warnings.simplefilter("ignore")
+                    so = getattr(ode, cls)(np.array([s["m"]]), np.array([s["b"]]), np.array([s["k"]]), s["h"], rb=s["rb"],
+                                           order=s["order"]).tsolve(F, [d0], [v0])
+            except Exception as e:  # noqa: BLE001
+                fail("%s refuses a one-mode system at %g times the cut-off" % (cls, f), repr(e)[:120], "a solution")
+                continue
+            tol_d, tol_v = (s["tol_d"], s["tol_v"]) if cls == "SolveUnc" else (1e-10, 1e-10)
+            ed = _note("boundary-%s-%s-%s-d" % (cut, side, cls), float(np.abs(so.d[0] - rd).max() / sd))
+            ev = _note("boundary-%s-%s-%s-v" % (cut, side, cls), float(np.abs(so.v[0] - rv).max() / sv))
+            if not ed <= tol_d:
+                fail("%s: displacement of one mode at %g times the cut-off differs from the exact hold solution "
+                     "(60-digit reference)" % (cls, f), ed, "<= %g" % tol_d)
+            elif not ev <= tol_v:
+                fail("%s: velocity of one mode at %g times the cut-off differs from the exact hold solution "
+                     "(60-digit reference)" % (cls, f), ev, "<= %g" % tol_v)
+        return
+    if cut == "rb-auto":
+        c = 0.005 * f
+        expect_rb = [0] if f < 1 else []
+        nt = 24
+        F = np.vstack([np.cos(np.arange(nt) * 0.3) + 0.5, np.sin(np.arange(nt) * 0.4), np.ones(nt)])
+        # documented rule of get_su_coef itself (rbmodes=None): k/m < 0.005
+        from pyyeti.ode._utilities import get_su_coef
+
+        for m in (None, np.array([2.0, 2.0])):
+            kk = np.array([c * (1.0 if m is None else 2.0), 50.0])
+            pv = [int(x) for x in get_su_coef(m, np.array([0.0, 0.1]), kk, 0.01).pvrb]
+            if pv != [1 if f < 1 else 0, 0]:
+                fail("get_su_coef(rbmodes=None): a mode with k/m = %g*0.005 is classified %s" % (f, pv), pv,
+                     "rigid-body iff k/m < 0.005")
+        # uncoupled and coupled solvers: rb=None must be the documented rule abs(k) < 0.005
+        kv = np.array([c, 4.0, 9.0])
+        bv = np.array([0.0, 0.2, 0.3])
+        Kc = np.diag(kv)
+        Kc[1, 2] = Kc[2, 1] = 0.5
+        for cls in ("SolveUnc", "SolveExp2"):
+            for name, kk in (("uncoupled", kv), ("coupled", Kc)):
+                try:
+                    with warnings.catch_warnings():
+                        warnings.simplefilter("ignore")
+                        a = getattr(ode, cls)(None, bv, kk, 0.5).tsolve(F, None, [0.1, 0.0, 0.0], True)
+                        b = getattr(ode, cls)(None, bv, kk, 0.5, rb=expect_rb).tsolve(F, None, [0.1, 0.0, 0.0], True)
+                except Exception as e:  # noqa: BLE001
+                    fail("%s (%s) refuses a system with a stiffness at %g times the tolerance" % (cls, name, f),
+                         repr(e)[:120], "a solution")
+                    continue
+                e = _note("boundary-rb-auto", _rel(a.d, b.d))
+                if not e <= 1e-10:
+                    fail("%s (%s): rb=None differs from rb=%s for a mode with abs(k) = %g*0.005 (static_ic, 24 steps)"
+                         % (cls, name, expect_rb, f), e, "rb=None is the documented rule abs(k) < 0.005")
+        return
+    if cut == "cplx-small":
+        # a strongly over-damped oscillator (slow eigenvalue ~ -w/(2 zeta)) coupled to a second one through the
+        # stiffness: well-conditioned eigenvectors, the slow eigenvalue placed at the boundary by bisection on zeta
+        h, nt = 20.0, 8
+        target = 5e-5 * f
+
+        def mats(z):
+            return np.eye(2), np.array([[0.2 * z, 0.0], [0.0, 0.03]]), np.array([[0.01, 0.002], [0.002, 0.09]])
+
+        def small(z):
+            M, B, K = mats(z)
+            return np.abs(np.linalg.eigvals(_state_matrix(M, B, K))).min()
+
+        lo, hi = 3000.0, 50.0  # small(lo) < target < small(hi)
+        for _ in range(80):
+            mid = (lo + hi) / 2
+            if small(mid) < target:
+                lo = mid
+            else:
+                hi = mid
+        M, B, K = mats(hi)
+        got = small(hi)
+        if abs(got - target) > 1e-4 * target:
+            return  # the construction did not reach the boundary (not a statement about pyYeti)
+        F = np.vstack([0.01 * np.cos(np.arange(nt) * 0.7) + 0.02, 0.01 * np.ones(nt)])
+        d0, v0 = np.array([0.3, 0.2]), np.array([0.0, 0.01])
+        inp.update(M=M.tolist(), B=B.tolist(), K=K.tolist(), h=h, lam_small=float(got))
+        for o in (0, 1):
+            rd, rv, ra, A = _expm_reference(M, B, K, h, F, d0, v0, o)
+            lam, V = np.linalg.eig(A)
+            condV = np.linalg.cond(V)
+            sd = np.abs(rd).max() + h * np.abs(rv).max()
+            T = h * (nt - 1)
+            # below the cut-off the mode is integrated as lam = 0: accurate to |lam| T (the documented cut-off);
+            # above it: graded by the conditioning rule of the complex coefficients
+            tol = 4 * 5e-5 * T if f < 1 else 1e-9 * max(10.0, condV) * max(1.0, (1e-2 / (got * h)) ** 2)
+            try:
+                with warnings.catch_warnings():
+                    warnings.simplefilter("ignore")
+                    so = ode.SolveUnc(M, B, K, h, order=o).tsolve(F, d0, v0)
+            except Exception as e:  # noqa: BLE001
+                fail("SolveUnc refuses a coupled system with an eigenvalue at %g times the tolerance" % f, repr(e)[:120], "a solution")
+                continue
+            e = _note("boundary-cplx-small-" + side, _rel(so.d, rd, sd))
+            if not e <= tol:
+                fail("SolveUnc (coupled path, order %d): a mode with |lam| = %g*5e-5 differs from the exact hold solution" % (o, f),
+                     e, "<= %g" % tol)
+        return
+
+
 def _oracle_one(s):
     _quiet()
     fails = []
     if s.get("kind") == "general":
         _oracle_general(s, fails)
+        return fails
+    if s.get("kind") == "exp1":
+        _oracle_exp1(s, fails)
+        return fails
+    if s.get("kind") == "boundary":
+        _oracle_boundary(s, fails)
         return fails
     if s.get("kind") == "coupled" or s.get("phi") is not None:
         _oracle_coupled(s, fails)
@@ -2429,6 +2708,10 @@ def _hint_specs(hints):
                 out.append(i["usys"])
             else:
                 out.append({k_: v for k_, v in i.items() if k_ not in ("stream", "static", "rb", "rf", "blockphi")})
+        elif st == "exp1":
+            out.append({k_: v for k_, v in i.items() if k_ != "stream"})
+        elif st == "pe":
+            out.append({k_: v for k_, v in i.items() if k_ not in ("stream", "mform", "bform", "solver", "static")} | {"kind": "general"})
         elif st == "coef" and i.get("rf") == "0":
             # a one-mode system around the disagreeing coefficient input
             m, b, k, hh = i["m"], i["b"], i["k"], i["h"]
@@ -2471,8 +2754,16 @@ def search(ctx, hints):
         specs.append(_gen_coupled(ctx, rng, oracle=True))
     for _ in range(ctx.pick(250, 3000)):
         specs.append(_gen_general(rng))
+    rng1 = ctx.np_rng(11)
+    for _ in range(ctx.pick(150, 1500)):
+        specs.append(_gen_exp1(rng1))
+    specs = _boundary_specs() + specs
     for s in specs:
         fs = _oracle_one(s)
+        if s.get("kind") in ("exp1", "boundary"):
+            ctx.count("oracle:" + s["kind"] + ("-" + s["cut"] if s.get("cut") else ""))
+            ctx.failures.extend(fs)
+            continue
         if s.get("kind") == "general":
             ctx.count("oracle:general-coupled")
             ctx.count("oracle:general-" + s["style"] + ("-zero-stiffness-dof" if s["nz"] else ""))
